@@ -12,7 +12,9 @@
 (*   wire format re-wrapped / with CRLF built by the harness (lay = 2, the  *)
 (*   specification re-derives it) -- is read back as exactly cfg.recs, by   *)
 (*   the direct reader and through the sniffer, under every capacity and    *)
-(*   chunking (they are not arguments of the expectation); cut after `cut`  *)
+(*   chunking and every pattern of Err(Interrupted) answers of the source   *)
+(*   or sink (args cap, sched, intr: not arguments of the expectation, the  *)
+(*   contract of Interrupted is "no-op, retry"); cut after `cut`            *)
 (*   bytes: the FASTQ records that pass check() are a prefix of cfg.recs.   *)
 (*   sniff_at: the sniffer on a seekable source positioned at offset `off`   *)
 (*   (reached by seek or by consuming bytes): when bytes[off..] is a layout  *)
